@@ -76,9 +76,16 @@ def _new_tabulate(ctx, m, fn, cls: str, absolute: bool) -> bool | None:
         return None
     rest = body[start + 1:]
     consts = dict(_consts(m))
+    consts.setdefault("US_PER_SECOND", core.const("constants", "US_PER_SECOND"))
     bad, n = [], 0
-    totals = [0, 1, -1, 59, -59, 60, 3600, -3600, 86399, 86400, -86400, 86401, -86401, 90061, -90061, 604800, -604800, 694861, -694861,
-              12345678, -12345678, 0.5, -0.5, 1.25, -1.25, 86400.000001, -86400.000001, 90061.123456, -90061.123456, 59.999999, -59.999999]
+    # the unit of `total`: float seconds, or whole microseconds when its definition scales by US_PER_SECOND / 10**6
+    tdef = nun(body[start].value)
+    in_us = "US_PER_SECOND" in tdef or "1000000" in tdef or "10 ** 6" in tdef
+    from fractions import Fraction as Fr
+    exact = [0, 1, -1, 59, -59, 60, 3600, -3600, 86399, 86400, -86400, 86401, -86401, 90061, -90061, 604800, -604800, 694861, -694861,
+             12345678, -12345678, Fr(1, 2), Fr(-1, 2), Fr(5, 4), Fr(-5, 4), Fr(86400000001, 10**6), Fr(-86400000001, 10**6),
+             Fr(90061123456, 10**6), Fr(-90061123456, 10**6), Fr(59999999, 10**6), Fr(-59999999, 10**6), Fr(9460800007630000, 10**6)]
+    totals = [int(v * 10**6) if in_us else (int(v) if Fr(v).denominator == 1 else float(v)) for v in exact]
     try:
         for total in totals:
             selfo = NS()
@@ -92,10 +99,10 @@ def _new_tabulate(ctx, m, fn, cls: str, absolute: bool) -> bool | None:
                         break
                     raise
             sgn = 1 if (absolute or total >= 0) else -1
-            t_ = abs(total) if absolute else total
-            a_ = abs(int(t_))
+            us_all = abs(total) if in_us else abs(round(Fr(total) * 10**6))
+            a_ = us_all // 10**6
             want = {"_days": a_ // 86400 * sgn, "_seconds": a_ % 86400 * sgn, "_weeks": a_ // 86400 // 7 * sgn, "_remaining_days": a_ // 86400 % 7 * sgn,
-                    "_microseconds": round(t_ % sgn * 1e6)}
+                    "_microseconds": us_all % 10**6 * sgn}
             n += 1
             for k, w in want.items():
                 g = getattr(selfo, k, None)
@@ -110,11 +117,36 @@ def _new_tabulate(ctx, m, fn, cls: str, absolute: bool) -> bool | None:
     return not bad
 
 
+def exact_breakdown(ctx) -> None:
+    """the stored breakdown must be computed in integers: a float number of seconds carries 53 bits, i.e. it is exact to
+    the microsecond only up to 2**53 us = 285 years - beyond that `total_seconds()`-based digits are off by microseconds"""
+    m = pmod("duration")
+    fn = m.func("Duration.__new__")
+    a = self_assigns(fn)
+    cone = [(k, v) for k, v in a.items() if k in ("_microseconds", "_seconds", "_days", "_weeks", "_remaining_days", "local:total", "local:_days")]
+    bad = []
+    for k, v in cone:
+        for n in ast.walk(v):
+            if isinstance(n, ast.Call) and isinstance(n.func, ast.Attribute) and n.func.attr == "total_seconds":
+                bad.append(f"{k}: {nun(n)}")
+            elif isinstance(n, ast.BinOp) and isinstance(n.op, ast.Div):
+                bad.append(f"{k}: true division `{nun(n)[:40]}`")
+            elif isinstance(n, ast.Constant) and isinstance(n.value, float):
+                bad.append(f"{k}: float constant {n.value}")
+    if not cone:
+        ctx.unverified("EXACT.breakdown", "Duration.__new__", "breakdown assignments not found", m.loc(fn))
+    else:
+        ctx.ob("EXACT.breakdown", "Duration.__new__", not bad,
+               f"float arithmetic in the breakdown: {bad[:4]}; weeks/days/seconds/microseconds must come from the integer slots of the "
+               f"underlying timedelta" if bad else f"{len(cone)} breakdown expressions are integer arithmetic on the native slots", m.loc(fn))
+
+
 def _duration_new(ctx) -> None:
     m = pmod("duration")
     fn = m.func("Duration.__new__")
     can = Canon(consts=_consts(m))
     tab = _new_tabulate(ctx, m, fn, "Duration", False)
+    exact_breakdown(ctx)
 
     def E(src):
         return can.s(ast.parse(src, mode="eval").body)
@@ -143,9 +175,13 @@ def _duration_new(ctx) -> None:
     else:
         sv = "m"
     tot = a.get("local:total")
-    ctx.ob("UNITS.new", "Duration.__new__/total", tot is not None and can.s(tot) == E("self.total_seconds() - (years * 365 + months * 30) * 86400"),
-           f"total = `{nun(tot)}`; the years/months part added above must be removed again, in seconds", m.loc(fn))
-    ctx.ob("UNITS.new", "Duration.__new__/_total", "_total" in a and nun(a["_total"]) == "total", "self._total = total", m.loc(fn))
+    tot_forms = (E("self.total_seconds() - (years * 365 + months * 30) * 86400"),
+                 E("((timedelta.days.__get__(self) - (years * 365 + months * 30)) * 86400 + timedelta.seconds.__get__(self)) * 1000000 "
+                   "+ timedelta.microseconds.__get__(self)"))
+    ctx.ob("UNITS.new", "Duration.__new__/total", tot is not None and can.s(tot) in tot_forms,
+           f"total = `{nun(tot)}`; the years/months part added above must be removed again (seconds, or exact microseconds from the native slots)", m.loc(fn))
+    ctx.ob("UNITS.new", "Duration.__new__/_total", "_total" in a and can.s(a["_total"]) in (E("total"), E("total / 1000000")),
+           "self._total is the length without years/months in seconds", m.loc(fn))
     # sign
     ifs = [n for n in core.walk_fn(fn) if isinstance(n, ast.If) and nun(n.test) in ("total < 0", "0 > total")]
     ok = len(ifs) == 1 and [nun(s) for s in ifs[0].body] == [f"{sv} = -1"] and nun(a.get("local:m")) == "1" and not ifs[0].orelse
